@@ -335,6 +335,242 @@ fn type_id(g: &Graph, root: usize) -> TypeId {
 }
 
 // ------------------------------------------------------------------------------------------------
+// schema -> hand-built IR (the compiled-code half compares against this)
+// ------------------------------------------------------------------------------------------------
+
+use crate::schema::gen::{ADef, AItem, ALen, APart, ASchema, AConstValue, AType};
+
+/// Builds, from the abstract schema alone, the layout graph of everything reachable from one
+/// definition (following imports), with documentation left out and slots numbered in discovery
+/// order. `None` if the closure does not fit into the slot table or a reference does not resolve.
+struct Translator<'a> {
+    world: &'a [&'a ASchema],
+    nodes: Vec<Node>,
+    memo: std::collections::HashMap<String, usize>,
+    failed: bool,
+}
+
+impl<'a> Translator<'a> {
+    fn schema(&self, name: &str) -> Option<&'a ASchema> {
+        self.world.iter().find(|s| s.name == name).copied()
+    }
+
+    fn alloc(&mut self, key: String) -> usize {
+        if self.nodes.len() >= MAX_SLOTS {
+            self.failed = true;
+            return 0;
+        }
+        self.nodes.push(Node::Leaf(0));
+        let i = self.nodes.len() - 1;
+        self.memo.insert(key, i);
+        i
+    }
+
+    fn leaf(&mut self, k: u8) -> usize {
+        let key = format!("L{}", k);
+        if let Some(i) = self.memo.get(&key) {
+            return *i;
+        }
+        let i = self.alloc(key);
+        if !self.failed {
+            self.nodes[i] = Node::Leaf(k);
+        }
+        i
+    }
+
+    fn ty(&mut self, schema: &str, t: &AType) -> usize {
+        let k = match t {
+            AType::Bool => Some(0),
+            AType::U8 => Some(1),
+            AType::I8 => Some(2),
+            AType::U16 => Some(3),
+            AType::I16 => Some(4),
+            AType::U32 => Some(5),
+            AType::I32 => Some(6),
+            AType::U64 => Some(7),
+            AType::I64 => Some(8),
+            AType::F32 => Some(9),
+            AType::F64 => Some(10),
+            AType::String => Some(11),
+            AType::Uuid => Some(12),
+            AType::ObjectId => Some(13),
+            AType::ServiceId => Some(14),
+            AType::Value => Some(15),
+            AType::Bytes => Some(16),
+            AType::Lifetime => Some(17),
+            AType::Unit => Some(18),
+            // a byte string in the language (see DESIGN, C16)
+            AType::Vec(x) if **x == AType::U8 => Some(16),
+            _ => None,
+        };
+        if let Some(k) = k {
+            return self.leaf(k);
+        }
+        match t {
+            AType::Named(n) => return self.def(schema, n),
+            AType::Extern(s, n) => return self.def(s, n),
+            _ => {}
+        }
+        let key = format!("T{}:{:?}", schema, t);
+        if let Some(i) = self.memo.get(&key) {
+            return *i;
+        }
+        let node = match t {
+            AType::Option(x) => Node::Opt(self.ty(schema, x)),
+            AType::Box(x) => Node::Boxx(self.ty(schema, x)),
+            AType::Vec(x) => Node::VecT(self.ty(schema, x)),
+            AType::Set(x) => Node::SetT(self.ty(schema, x)),
+            AType::Sender(x) => Node::Sender(self.ty(schema, x)),
+            AType::Receiver(x) => Node::Receiver(self.ty(schema, x)),
+            AType::Map(a, b) => {
+                let a = self.ty(schema, a);
+                Node::Map(a, self.ty(schema, b))
+            }
+            AType::Result(a, b) => {
+                let a = self.ty(schema, a);
+                Node::Res(a, self.ty(schema, b))
+            }
+            AType::Array(x, len) => {
+                let n = match len {
+                    ALen::Lit(n) => Some(*n),
+                    ALen::Const(c) => self.schema(schema).and_then(|s| {
+                        s.defs.iter().find_map(|d| match d {
+                            ADef::Const { name, value: AConstValue::Int(_, v), .. } if name == c => Some(*v as u32),
+                            _ => None,
+                        })
+                    }),
+                };
+                let Some(n) = n else {
+                    self.failed = true;
+                    return 0;
+                };
+                Node::Arr(self.ty(schema, x), n)
+            }
+            _ => unreachable!(),
+        };
+        let i = self.alloc(key);
+        if !self.failed {
+            self.nodes[i] = node;
+        }
+        i
+    }
+
+    fn def(&mut self, schema: &str, name: &str) -> usize {
+        let key = format!("D{}::{}", schema, name);
+        if let Some(i) = self.memo.get(&key) {
+            return *i;
+        }
+        let Some(s) = self.schema(schema) else {
+            self.failed = true;
+            return 0;
+        };
+        let Some(d) = s.defs.iter().find(|d| d.name() == name && !matches!(d, ADef::Const { .. })) else {
+            self.failed = true;
+            return 0;
+        };
+        let d = d.clone();
+        self.def_node(schema, &d, key)
+    }
+
+    fn def_node(&mut self, schema: &str, d: &ADef, key: String) -> usize {
+        // reserve the slot first: definitions may refer to themselves
+        let i = self.alloc(key);
+        if self.failed {
+            return 0;
+        }
+        let node = match d {
+            ADef::Struct(st) => Node::Struct {
+                schema: schema.to_string(),
+                name: st.name.clone(),
+                doc: None,
+                fields: st.fields.iter().map(|f| Fld { id: f.id, name: f.name.clone(), doc: None, req: f.required, ty: self.ty(schema, &f.ty) }).collect(),
+                fallback: st.fallback.as_ref().map(|(_, n)| (n.clone(), None)),
+            },
+            ADef::Enum(e) => Node::Enum {
+                schema: schema.to_string(),
+                name: e.name.clone(),
+                doc: None,
+                variants: e.variants.iter().map(|v| Var { id: v.id, name: v.name.clone(), doc: None, ty: v.ty.as_ref().map(|t| self.ty(schema, t)) }).collect(),
+                fallback: e.fallback.as_ref().map(|(_, n)| (n.clone(), None)),
+            },
+            ADef::Newtype { name, ty, .. } => Node::Newtype { schema: schema.to_string(), name: name.clone(), doc: None, target: self.ty(schema, ty) },
+            ADef::Service(sv) => {
+                let Ok(uuid) = Uuid::parse_str(&sv.uuid) else {
+                    self.failed = true;
+                    return 0;
+                };
+                let mut fns = Vec::new();
+                let mut events = Vec::new();
+                for it in &sv.items {
+                    match it {
+                        AItem::Fn { name, id, args, ok, err, .. } => {
+                            let f = super::c16::upper_camel(name);
+                            let a = args.as_ref().map(|(_, p)| self.part(schema, p, format!("{}{}Args", sv.name, f)));
+                            let o = ok.as_ref().map(|(_, p)| self.part(schema, p, format!("{}{}Ok", sv.name, f)));
+                            let e = err.as_ref().map(|(_, p)| self.part(schema, p, format!("{}{}Error", sv.name, f)));
+                            fns.push(Func { id: *id, name: name.clone(), doc: None, args: a, ok: o, err: e });
+                        }
+                        AItem::Event { name, id, ty, .. } => {
+                            let t = ty.as_ref().map(|p| self.part(schema, p, format!("{}{}Args", sv.name, super::c16::upper_camel(name))));
+                            events.push(Evt { id: *id, name: name.clone(), doc: None, ty: t });
+                        }
+                    }
+                }
+                Node::Service {
+                    schema: schema.to_string(),
+                    name: sv.name.clone(),
+                    doc: None,
+                    uuid: uuid.as_u128(),
+                    version: sv.version,
+                    fns,
+                    events,
+                    fn_fb: sv.fn_fallback.as_ref().map(|(_, n)| (n.clone(), None)),
+                    ev_fb: sv.ev_fallback.as_ref().map(|(_, n)| (n.clone(), None)),
+                }
+            }
+            ADef::Const { .. } => {
+                self.failed = true;
+                return 0;
+            }
+        };
+        if !self.failed {
+            self.nodes[i] = node;
+        }
+        i
+    }
+
+    fn part(&mut self, schema: &str, p: &APart, inline_name: String) -> usize {
+        match p {
+            APart::Type(t) => self.ty(schema, t),
+            APart::Struct(st) => {
+                let mut st = st.clone();
+                st.name = inline_name.clone();
+                self.def_node(schema, &ADef::Struct(st), format!("D{}::{}", schema, inline_name))
+            }
+            APart::Enum(e) => {
+                let mut e = e.clone();
+                e.name = inline_name.clone();
+                self.def_node(schema, &ADef::Enum(e), format!("D{}::{}", schema, inline_name))
+            }
+        }
+    }
+}
+
+/// Type id of definition `d` of schema `schema` computed from IR built by hand from the abstract
+/// schema; `None` if the reachable layouts do not fit into the slot table.
+pub(crate) fn type_id_from_schema(world: &[&ASchema], schema: &str, d: &ADef) -> Option<String> {
+    let mut t = Translator { world, nodes: Vec::new(), memo: std::collections::HashMap::new(), failed: false };
+    let root = t.def_node(schema, d, format!("D{}::{}", schema, d.name()));
+    if t.failed {
+        return None;
+    }
+    let n = t.nodes.len();
+    let g = Graph { nodes: t.nodes, ref_perm: (0..n as u64).map(|i| i.wrapping_mul(0x9E37_79B9_7F4A_7C15)).collect() };
+    let id = guarded(|| type_id(&g, root)).ok()?;
+    Some(id.0.to_string())
+}
+
+// ------------------------------------------------------------------------------------------------
 // generation
 // ------------------------------------------------------------------------------------------------
 
@@ -860,7 +1096,7 @@ impl Check for C20 {
     }
     fn assumptions(&self) -> Vec<String> {
         vec![
-            "the compiled-code half (generator output vs generate! macro vs hand-written derives with implicit and explicit ids) runs through C16's corpus crate in `once`; agreement of those with hand-built IR for the same schema is not checked (no schema-to-IR translator)".into(),
+            "the compiled-code half (generator output vs generate! macro vs hand-written derives with implicit and explicit ids) runs through C16's corpus crate in `once`; the same schemas are translated into hand-built IR (documentation left out, slots in discovery order) and the ids computed from that must equal the compiled ones, for structs, enums, newtypes, inline service types and services".into(),
             "'equal iff' is sampled: the only-if direction over single edits, the if direction over the four neutral transformations".into(),
         ]
     }
@@ -957,8 +1193,10 @@ impl Check for C20 {
         super::c16::C16.batch(ctx, &mut tmp, 1000, 8);
         out.count("compiled_type_ids_compared", tmp.counters.get("type_ids_compared").copied().unwrap_or(0));
         out.count("handwritten_derive_observations", tmp.counters.get("handwritten_derive_observations").copied().unwrap_or(0));
+        out.count("compiled_type_ids_vs_hand_built_ir", tmp.counters.get("type_ids_vs_hand_built_ir").copied().unwrap_or(0));
+        out.count("compiled_service_ids_vs_hand_built_ir", tmp.counters.get("service_ids_vs_hand_built_ir").copied().unwrap_or(0));
         for v in tmp.violations {
-            if v.signature.starts_with("derive-implicit-ids") || v.signature.starts_with("type-id-generator-vs-macro") {
+            if v.signature.starts_with("derive-implicit-ids") || v.signature.starts_with("type-id-") {
                 out.violation(v.signature, v.detail, v.replay);
             } else {
                 out.count("corpus_findings_owned_by_C16", 1);
@@ -970,7 +1208,7 @@ impl Check for C20 {
     }
     fn gates(&self, _tier: Tier, merged: &Outcome) -> Vec<String> {
         let mut g = Vec::new();
-        for k in ["recursive_layouts", "records_roundtripped", "compiled_type_ids_compared", "handwritten_derive_observations"] {
+        for k in ["recursive_layouts", "records_roundtripped", "compiled_type_ids_compared", "handwritten_derive_observations", "compiled_type_ids_vs_hand_built_ir"] {
             if merged.counters.get(k).copied().unwrap_or(0) == 0 {
                 g.push(format!("{} never happened", k));
             }
